@@ -236,10 +236,16 @@ class Runner:
         context.ctxt = context.Context(vars=dict(d.vars))
         self.cur = d
 
-    def ensure_ctx(self, vars_):
-        """a context that declares the free variables of the term at hand"""
+    def ensure_ctx(self, vars_, term=None):
+        """a context that declares the free variables of the term at hand (and, when the term is given, only
+        those: a context declaring further variables can clash with the fresh bound names the printer picks -
+        see known finding roundtrip/term/input/abs)"""
         from logic import context
-        context.ctxt = context.Context(vars=dict(vars_))
+        vs = dict(vars_)
+        if term is not None:
+            names = set(v.name for v in term.get_vars())
+            vs = {k: v for k, v in vs.items() if k in names}
+        context.ctxt = context.Context(vars=vs)
 
     def pool_term(self, d, a, b):
         """a term of document d with the variable declarations it needs: (term, vars)"""
@@ -494,7 +500,8 @@ class Runner:
 
     def roundtrip(self, seq, d, t, vs, op):
         from syntax import parser
-        self.ensure_ctx(vs)
+        self.ensure_ctx(vs, t)
+        vs = {k: v for k, v in vs.items() if k in set(x.name for x in t.get_vars())}
         before = exact_key(t)
         try:
             text = self.show(t, op)
